@@ -151,7 +151,7 @@ func (t *ipTransport) Start() {
 	t.server = s
 
 	if t.CameraSnapshotReq != nil {
-		t.server.Mux.Handle("/resource", endpoint.NewResource(t.context, t.CameraSnapshotReq))
+		t.server.Mux.Handle("/resource", t.server.Authenticate(endpoint.NewResource(t.context, t.CameraSnapshotReq)))
 	}
 
 	// Publish server port which might be different then `t.config.Port`
